@@ -325,7 +325,7 @@ pub fn c05(r: &mut Rng, tier: &str) -> Vec<Case> {
             let mut c = Case::new(format!("{}/self{}", tagof(page, op), j));
             c.key = tagof(page, op);
             c.push(sbox(s), P_NONE);
-            c.push(Cmd::X, Proj { pc: true, cyc: true, ..NONE });
+            c.push(Cmd::X, Proj { pc: true, ..NONE });
             cases.push(c);
         }
     }
@@ -711,7 +711,7 @@ pub fn c08(r: &mut Rng, tier: &str) -> Vec<Case> {
             let mut s = St::default();
             s.top = top;
             s.seed = SEEDS[1 + (chunk[0] as usize % 5)];
-            let mut c = Case::new(format!("t{}/a{}", cls16(top), cls16(chunk[0])));
+            let mut c = Case::new(format!("t{:04X}/a{:04X}", top, chunk[0]));
             c.key = "bus".into();
             c.push(sbox(s), P_NONE);
             for (j, &a) in chunk.iter().enumerate() {
@@ -1355,6 +1355,44 @@ pub fn c18(r: &mut Rng, tier: &str) -> Vec<Case> {
     let (np, ns) = if quick(tier) { (48, 1200) } else { (600, 5000) };
     let budgets: [u32; 6] = [3, 4, 17, 100, 1000, 35000];
     let mut cases = vec![];
+    // the budget: f MHz (in eighths, so that f and f*10^6 are exact in f32) x every d dividing 1000;
+    // the model's value is the exact f x 1000 x d, the implementation's is what set_freq computed
+    {
+        let mut c = Case::new("budget/grid".into());
+        c.key = "budget".into();
+        c.push(sbox(St::default()), P_NONE);
+        for d in [1u32, 2, 4, 5, 8, 10, 20, 25, 40, 50, 100, 125, 200, 250, 500, 1000] {
+            for n8 in [1u32, 2, 4, 8, 12, 14, 16, 20, 28, 32, 40, 64, 17, 29] {
+                // keep the product below 2^24 so that every intermediate value is exact in f32
+                if (n8 as u64) * 125 * (d as u64) < (1 << 24) {
+                    c.push(Cmd::SD(d), P_NONE);
+                    c.push(Cmd::SF(n8), p_mem());
+                }
+            }
+        }
+        cases.push(c);
+        // and the budget that was set is the one the throttle uses
+        for (n8, d) in [(1u32, 1u32), (8, 1), (16, 20), (28, 20), (17, 4)] {
+            let mut s = rand_state(r);
+            s.seed = SEEDS[3];
+            let mut c = Case::new(format!("budget/use{}", n8));
+            c.key = "budget".into();
+            c.push(sbox(s.clone()), P_NONE);
+            c.push(Cmd::SD(d), P_NONE);
+            c.push(Cmd::SF(n8), p_mem());
+            let mut tix = vec![];
+            for _ in 0..600 {
+                tix.push(c.push(Cmd::T, P_NONE));
+            }
+            c.push(sbox(s.clone()), P_NONE);
+            let mut xix = vec![];
+            for _ in 0..600 {
+                xix.push(c.push(Cmd::X, P_NONE));
+            }
+            c.acct = Some(Accounting { t: tix, x: xix, smax: n8 * 125 * d, scur: s.scur });
+            cases.push(c);
+        }
+    }
     for k in 0..np {
         let mut s = rand_state(r);
         s.seed = SEEDS[1 + k % 5];
@@ -1366,7 +1404,7 @@ pub fn c18(r: &mut Rng, tier: &str) -> Vec<Case> {
             let pc = s.pc;
             s.poke(pc, &[if k % 8 == 1 { 0xF3 } else { 0xFB }, 0x00, 0x76]);
         }
-        let mut c = Case::new(format!("timed/b{}d{}", s.smax, s.sdur));
+        let mut c = Case::new(format!("timed/b{}d{}c{}h{}", s.smax, s.sdur, (s.scur > 0) as u8, (k % 4 == 1) as u8));
         c.key = "timed".into();
         // sleep presence / bound / counter are judged on the implementation's own T-states (accounting
         // oracle below); against the model only the bound marker matters
